@@ -25,6 +25,12 @@ FlagIs(item) == CASE item = "upgrading=T" -> upgrading' = TRUE /\ upgraded' = up
                   [] item = "upgraded=F"  -> upgraded' = FALSE /\ upgrading' = upgrading
                   [] OTHER -> FALSE
 
+NoopWrite(item) == CASE item = "upgrading=T" -> upgrading
+                     [] item = "upgrading=F" -> ~upgrading
+                     [] item = "upgraded=T"  -> upgraded
+                     [] item = "upgraded=F"  -> ~upgraded
+                     [] OTHER -> FALSE
+
 Consume ==
     /\ l <= Len(Evs)
     /\ LET e == Evs[l]
@@ -51,13 +57,26 @@ Consume ==
                                                    /\ e.item = "upgraded=F"
                                      ELSE ShortStep(p) /\ pc'[p] \in {"g1", "g2", "g3"}
                                           /\ e.item = (IF pc'[p] = "g2" THEN "upgrading=" ELSE "upgraded=") \o it'[p]
-            [] e.op = "flag"      -> p = U /\ UpgraderStep /\ FlagIs(e.item) /\ q' = q
-                                     /\ pc'[p] \notin {"u_wait1", "u_wait2", "r_wait", "put", "done"}
-                                     /\ wsout' = wsout
+            \* a write that changes the flag must be the next effective write of the model; a
+            \* write of the value the flag already has is visible to nobody: consumed as it is
+            [] e.op = "flag"      -> \/ /\ p = U /\ UpgraderStep /\ FlagIs(e.item) /\ q' = q
+                                        /\ (upgrading' # upgrading \/ upgraded' # upgraded)
+                                        /\ pc'[p] \notin {"u_wait1", "u_wait2", "r_wait", "put", "done"}
+                                        /\ wsout' = wsout
+                                     \/ /\ p = U /\ NoopWrite(e.item) /\ UNCHANGED allvars
             [] e.op = "ret"       -> StepOf(p) /\ pc'[p] = "done" /\ pc[p] # "done" /\ q' = q /\ unf' = unf
                                      /\ upgrading' = upgrading /\ upgraded' = upgraded
             [] OTHER -> FALSE
     /\ l' = l + 1 /\ UNCHANGED tid
+
+\* ... and a write of the model that changes nothing needs no record
+Silent ==
+    /\ l <= Len(Evs) + 1
+    /\ UpgraderStep
+    /\ pc[U] \in {"u_r2", "u_got1", "u_got2", "u_f2", "u_x1", "u_fin"}
+    /\ pc'[U] \in {"u_b1", "u_fin", "u_ret", "u_f2", "u_f3", "u_x1"}
+    /\ upgrading' = upgrading /\ upgraded' = upgraded
+    /\ UNCHANGED <<tid, l>>
 
 Fin == Tr[tid].final
 Finish ==
@@ -69,7 +88,7 @@ Finish ==
     /\ PrintT(<<"ACC", tid>>)
     /\ l' = l + 1 /\ UNCHANGED <<allvars, tid>>
 
-TraceNext == Consume \/ Finish
+TraceNext == Consume \/ Silent \/ Finish
 TraceSpec == TraceInit /\ [][TraceNext]_tvars
 DiagPrint == PrintT(<<"DIAG", l, q, unf, upgrading, upgraded, wsin, wsout, read, stage, gone, pc, it, pk, deliv, wsdeliv>>)
 =============================================================================
